@@ -37,7 +37,21 @@ Proof. exact datagram_prefix. Qed.
 Theorem C01_datagram_terminates : forall data ms, datagram_split data = (ms, Some EFuel) -> False.
 Proof. intros data ms. apply datagram_no_fuel. apply le_n. Qed.
 
+(* the numbers the symbolic message types and return codes stand for on the wire, written out from the SOME/IP
+   specification (PRS_SOMEIP_00055 / PRS_SOMEIP_00191) - the left-hand sides are GENERATED from the live enums, so a changed
+   enum value breaks this proof *)
+Theorem C01_enum_values_are_those_of_the_specification :
+  [MT_REQUEST; MT_REQUEST_NO_RETURN; MT_NOTIFICATION; MT_REQUEST_ACK; MT_REQUEST_NO_RETURN_ACK; MT_NOTIFICATION_ACK;
+   MT_RESPONSE; MT_ERROR; MT_RESPONSE_ACK; MT_ERROR_ACK] = [0; 1; 2; 64; 65; 66; 128; 129; 192; 193]
+  /\ msg_type_values = [0; 1; 2; 64; 65; 66; 128; 129; 192; 193]
+  /\ [RC_E_OK; RC_E_NOT_OK; RC_E_UNKNOWN_SERVICE; RC_E_UNKNOWN_METHOD; RC_E_NOT_READY; RC_E_NOT_REACHABLE; RC_E_TIMEOUT;
+      RC_E_WRONG_PROTOCOL_VERSION; RC_E_WRONG_INTERFACE_VERSION; RC_E_MALFORMED_MESSAGE; RC_E_WRONG_MESSAGE_TYPE]
+     = [0; 1; 2; 3; 4; 5; 6; 7; 8; 9; 10]
+  /\ ret_code_values = [0; 1; 2; 3; 4; 5; 6; 7; 8; 9; 10].
+Proof. repeat split; reflexivity. Qed.
+
 Print Assumptions C01_layout.
+Print Assumptions C01_enum_values_are_those_of_the_specification.
 Print Assumptions C01_roundtrip.
 Print Assumptions C01_roundtrip_layout.
 Print Assumptions C01_parse_sound.
